@@ -1415,6 +1415,46 @@ def rule_ignore_arg(ctx, prop):
     return rep
 
 
+def rule_ignore_guard(ctx, prop):
+    """stdin mode: with --respect-ignores and a --stdin-filepath the ignore question is always asked - no further condition
+    (a cached 'is there an ignore file in the cwd' bit, another option) stands between the flag and the lookup"""
+    rep = Report(prop, "R-IGNOREGUARD", "in stdin mode path_is_stylua_ignored is reached from the true edge of the "
+                                        "opt.respect_ignores test by unconditional edges only (the lookup is skipped for no "
+                                        "other reason than the flag being off or no --stdin-filepath)")
+    for cfg, prog in ctx.programs.items():
+        prog = _view(prog)
+        n = 0
+        for f, b, t in call_sites(prog, r"(^|::)path_is_stylua_ignored$", "stylua"):
+            # the stdin-mode site is the one dominated by the test of the flag (file mode asks should_respect_ignores())
+            sw = [x for x in field_switches(f, "respect_ignores") if f.dominates(x[0], b)]
+            if not sw:
+                continue
+            n += 1
+
+            def straight(frm, to):
+                cur = frm
+                for _ in range(16):
+                    if cur == to:
+                        return True
+                    tt = f.blocks[cur]["term"]
+                    if tt["k"] in ("goto", "drop", "assert") or (tt["k"] == "call" and tt.get("t") is not None):
+                        cur = tt["t"]
+                    else:
+                        return False
+                return False
+            ok = any(tr is not None and straight(tr, b) for _, tr, fl, _ in sw)
+            rep.inst(f"{f.key} respect_ignores => path_is_stylua_ignored", {"at": f.loc(t["sp"])}, cfg, ok=ok)
+            if not ok:
+                rep.violation(f"{f.key} ignore-lookup-behind-extra-condition",
+                              f"{f.path}: between the test of opt.respect_ignores and the call of path_is_stylua_ignored stands "
+                              f"another branch: with --respect-ignores and an ignored --stdin-filepath the lookup can be skipped "
+                              f"(e.g. when the matching .styluaignore lives next to the file and not in the working directory) "
+                              f"and the buffer is formatted instead of passed through", f.loc(t["sp"]), cfg,
+                              witness={"argv": "stylua --respect-ignores --stdin-filepath sub/x.lua -  (sub/.styluaignore: x.lua; no ./.styluaignore)"})
+        rep.floor("stdin-mode ignore lookups guarded by respect_ignores", n, 1, cfg)
+    return rep
+
+
 def rule_verify_wiring(ctx, prop):
     """--verify means OutputVerification::Full in every mode: the choice depends on opt.verify alone"""
     rep = Report(prop, "R-VERIFYFLAG", "the OutputVerification handed to the formatter is Full exactly when opt.verify is "
